@@ -20,7 +20,7 @@ func C11(r *core.Run) {
 		"(R11.2) every backend slices/seeks/limits with exactly that result and the stored size, returns Range()'s error unchanged and reports the range in Object.Range; " +
 		"(R11.3) Content-Range/Content-Length are written from that range and the object size, after the entity headers and before the body; " +
 		"(R11.4) every parse failure of the Range header returns ErrInvalidRange, which maps to 416; " +
-		"(R11.6) no body-returning read answers before Range() was consulted, and a function that receives a range request hands exactly that request to every callee that takes one (no path serves the whole object, or an unchecked range, for a ranged read). (R11.7) in the fs backends the file positioned at the range start is handed to nothing but the length-limiting wrapper before it becomes the body. (R11.8) with a range present the fs backends return the file only through the length-limiting wrapper."
+		"(R11.6) no body-returning read answers before Range() was consulted, and a function that receives a range request hands exactly that request to every callee that takes one (no path serves the whole object, or an unchecked range, for a ranged read). (R11.7) in the fs backends the file positioned at the range start is handed to nothing but the length-limiting wrapper before it becomes the body. (R11.8) with a range present the fs backends return the file only through the length-limiting wrapper. (R11.9) Object.Size is the size the range was validated against."
 	r.NotDecided = "value exactness of start/length for in-range requests, whitespace variants, the multi-range answer (501 today)"
 	ctx := oblig.NewCtx(r.P)
 	rule111(r, ctx)
@@ -31,6 +31,7 @@ func C11(r *core.Run) {
 	rule116(r)
 	rule117(r)
 	rule118(r)
+	rule119(r)
 }
 
 // rule111 checks the result envelope of Range(); returns true if it holds.
@@ -972,4 +973,44 @@ func rule118(r *core.Run) {
 	if n < 2 {
 		r.Unresolved("R11.8: %d fs GetObject methods examined (expected 2)", n)
 	}
+}
+
+// rule119 — the size reported with a ranged read is the size the range was computed against.
+func rule119(r *core.Run) {
+	r.Rule("R11.9", "in every backend function that calls ObjectRangeRequest.Range(size) and builds the Object it returns, Object.Size has the same provenance as that size argument (the stored size field, the length of the unsliced stored body, the stat result): Content-Range's total and the 416 decision are about the same number — never the length of the already sliced data")
+	n := 0
+	for _, fn := range r.P.RepoFuncs() {
+		var rc *ssa.Call
+		core.Instrs(fn, func(in ssa.Instruction) {
+			if c, ok := in.(*ssa.Call); ok && r.P.CalleeName(c) == "gofakes3.(*ObjectRangeRequest).Range" {
+				rc = c
+			}
+		})
+		if rc == nil || len(rc.Call.Args) < 2 {
+			continue
+		}
+		want := provenance(r, rc.Call.Args[1])
+		for _, st := range r.P.FieldStores("gofakes3.Object.Size") {
+			if st.Parent() != fn {
+				continue
+			}
+			n++
+			got := provenance(r, st.Val)
+			r.Check(got == want, "R11.9", key(fname(r, fn), "Object.Size = the size given to Range"), pos(r, st), "same provenance: "+want,
+				"Object.Size derives from {"+got+"} while the range was computed against {"+want+"}: the total in Content-Range (and the size a HEAD reports) is not the size the range was validated with")
+		}
+	}
+	r.Floor("R11.9", 3, "backend functions building an Object after Range()")
+}
+
+// provenance: the sorted field / call / operator labels a value derives from.
+func provenance(r *core.Run, v ssa.Value) string {
+	s := r.P.SliceOf(v, core.SliceOpts{Depth: 0})
+	var out []string
+	for _, l := range s.LeafList("") {
+		if strings.HasPrefix(l, "field:") || strings.HasPrefix(l, "call:") || strings.HasPrefix(l, "op:") || strings.HasPrefix(l, "via:") {
+			out = append(out, l)
+		}
+	}
+	return strings.Join(out, " ")
 }
